@@ -402,12 +402,18 @@ FM_HASH = ("if self._hash is None:\n    self._hash = hash(tuple(((k, v) for k, v
            "return self._hash")
 
 
+FM_HASH_SET = ("if self._hash is None:\n    self._hash = hash(frozenset(self._mapping.items()))\n"
+               "return self._hash")
+
+
 def analyse_hash(cl, c, fn) -> tuple[dict, bool]:
     """-> ({field: mode}, const)"""
     hashed: dict[str, str] = {}
     body = [s for s in fn.body if not (isinstance(s, ast.Expr) and isinstance(s.value, ast.Constant))]
     if "\n".join(ast.unparse(s) for s in body) == FM_HASH:
         return {"_mapping": "orderedItems"}, False
+    if "\n".join(ast.unparse(s) for s in body) == FM_HASH_SET:
+        return {"_mapping": "itemSet"}, False
     local: dict[str, tuple] = {}
     for s in body[:-1]:
         # name = hash_df_runtime(self._f) if self._f is not None else None
@@ -435,6 +441,10 @@ def analyse_hash(cl, c, fn) -> tuple[dict, bool]:
             add(_resolve(cl, c, e.attr), "plain")
         elif isinstance(e, ast.Name) and e.id in local:
             add(*local[e.id])
+        elif isinstance(e, ast.Call) and isinstance(e.func, ast.Name) and e.func.id == "frozenset" and len(e.args) == 1 \
+                and isinstance(e.args[0], ast.Attribute) and e.args[0].attr == "nodes" and _is_self_attr(e.args[0].value):
+            # frozenset(self._g.nodes): a digest of a part of the graph's contents
+            add(e.args[0].value.attr, "contentPart")
         elif ast.unparse(e) == "super().__hash__()":
             base = next(b for b in cl.bases(c) if b in cl.defs)
             k, m = cl.method(base, "__hash__")
